@@ -7,6 +7,7 @@
   * `Bounds` : polynomial bounds on paths and work.
 -/
 import SoupVerif.Lemmas.RegexCost.Bounds
+set_option autoImplicit false
 namespace SoupVerif
 namespace Rx
 
@@ -24,8 +25,8 @@ theorem le_listMax {l : List Nat} {x : Nat} (h : x ∈ l) : x ≤ listMax l := b
     · exact Nat.le_max_left _ _
     · exact Nat.le_trans (ih h) (Nat.le_max_right _ _)
 
-theorem starSafe_star_det {mn : Nat} {g : Bool} {b : Rx}
-    (h : StarSafe (.rep mn none g b) = true) : Det (.rep mn none g b) = true := by
+theorem starSafe_star_det {sp : Specials} {mn : Nat} {g : Bool} {b : Rx}
+    (h : StarSafe sp (.rep mn none g b) = true) : Det sp (.rep mn none g b) = true := by
   simp only [StarSafe, Bool.and_eq_true, Bool.or_eq_true, Option.isSome_none,
     Bool.false_eq_true, or_false] at h
   exact h.2
